@@ -122,6 +122,8 @@ type FuncSpec struct {
 	Pure     bool
 	NoPanic  bool
 	Atomic   []Clause
+	Pures    []Clause // 'cs-pure': what 'guarded state unchanged' means for the non-final critical sections
+	InlineCalls []string // callees executed in place in this function although they have a contract
 	Params   map[string]*ParamSpec
 	File     string
 	Line     int
@@ -496,7 +498,7 @@ var clauseKW = map[string]bool{
 	"spec": true, "func": true, "lemma": true, "guarded": true,
 	"requires": true, "ensures": true, "modifies": true, "ghost": true, "loop": true,
 	"invariant": true, "decreases": true, "unfold": true, "inline": true, "trusted": true,
-	"pure": true, "atomic": true, "param": true, "induction": true, "havoc": true, "nopanic": true, "unroll": true, "known-finding": true, "apply": true, "assert": true, "witness": true,
+	"pure": true, "atomic": true, "param": true, "induction": true, "havoc": true, "nopanic": true, "unroll": true, "known-finding": true, "apply": true, "assert": true, "witness": true, "cs-pure": true, "inline-call": true,
 }
 
 type rawClause struct {
@@ -614,6 +616,22 @@ func ParseContractFile(path string, src []byte, ps *PkgSpec) error {
 			a := strings.SplitN(parts[0], ".", 2)
 			b := strings.SplitN(parts[2], ".", 2)
 			ps.Guards = append(ps.Guards, &GuardSpec{Type: a[0], Fields: []string{a[1]}, Mutex: b[1]})
+		case "cs-pure":
+			c, err := mkClause(rc)
+			if err != nil {
+				return err
+			}
+			if cur == nil {
+				return fmt.Errorf("%s:%d: cs-pure outside func", path, rc.line)
+			}
+			cur.Pures = append(cur.Pures, c)
+		case "inline-call":
+			if cur == nil {
+				return fmt.Errorf("%s:%d: inline-call outside func", path, rc.line)
+			}
+			for _, f := range strings.Split(rc.text, ",") {
+				cur.InlineCalls = append(cur.InlineCalls, strings.TrimSpace(f))
+			}
 		case "assert":
 			c, err := mkClause(rc)
 			if err != nil {
